@@ -386,7 +386,10 @@ def colour_sources(ctx, table):
                 continue
             n += 1
             key = "%s:tty/env:colored" % k
-            ent = table.get(key)
+            # a closure turned into a loop (or the reverse) moves the site between `f` and `f::{closure#n}`: rows are matched on the
+            # enclosing named function
+            base = k.split("::{closure")[0]
+            ent = table.get(key) or next((v for tk, v in table.items() if tk.endswith(":tty/env:colored") and tk.split("::{closure")[0].split(":tty/env")[0] == base), None)
             if k not in reach:
                 ctx.ob(rule, "%s:%s" % (kind, key), True, "a ColoredString is formatted here, in a function no structured-output builder reaches (console text only)", fn=f, line=hits[0].get("ln", 0))
             else:
